@@ -477,4 +477,15 @@ def run(facts, R):
                 R.check(ok, "broadcast-loop", c.path, "body kind %s from the given bytes" % kind, "closure builds %s" % txt[:120], c.span, txt[:80])
                 _body_content_rule(facts, R, PR + "::" + nm, c, cv, kind)
                 n_body += 1
+    # every Raw body built on behalf of broadcast_notify_raw (in its closure or a helper spliced into it) carries the caller's format
+    for c in facts.children(PR + "::broadcast_notify_raw"):
+        cs_ = Sym(c)
+        for i_, j_, st_ in c.assigns():
+            rv_ = st_["rv"]
+            if rv_.get("agg") == "adt" and str(rv_.get("adt", "")).endswith("NotifyBody") and rv_.get("variant") == "Raw" and i_ in c.live_blocks() and len(rv_["ops"]) == 2:
+                fv = cs_.op(rv_["ops"][1])
+                okf = (fv[0] == "field" and fv[1][0] == "arg" and fv[1][1] == 1 and fv[2] == "body_format") or (fv[0] == "arg" and fv[2] == "body_format") \
+                    or (getattr(c, "changed", False) and fv[0] == "local" and "body_format" in str(fv[2]))
+                R.check(okf, "broadcast-loop", c.path, "a Raw body keeps the caller's format",
+                        "broadcast_notify_raw builds NotifyBody::Raw(.., %s): the peers receive the body under another format than the one given" % render_n(fv)[:80], st_.get("span"), "Raw(bytes, body_format)")
     R.floor("broadcast-loop", n_body, 4, "broadcast wrappers whose body content was judged")
